@@ -113,6 +113,32 @@ def check_add(run, F, prefix="R-CONTAINER"):
     run.ob(prefix, "add has a hit and a miss path", found[True] >= 1 and found[False] >= 1, str(found), site(b), key="%s|%s|both" % (prefix, ADD))
 
 
+def check_ordered(run, F):
+    """who-may-reorder: crate-wide enumeration (by receiver type) of operations on the group / value lists."""
+    n_sites = 0
+    for path, body in F.hir.items():
+        if "::tests::" in path:
+            continue
+        for n in walk(body["body"]):
+            if n.get("k") != "mcall":
+                continue
+            rty = (n["recv"].get("ty") or "").replace("&mut ", "").replace("&", "")
+            adj = n["recv"].get("adj") or []
+            tys = [rty] + [a["to"].replace("&mut ", "").replace("&", "") for a in adj]
+            if not any(t.startswith(ORDERED_TYPES) for t in tys):
+                continue
+            n_sites += 1
+            name = n["name"]
+            if name in REORDER:
+                key = "R-ORDERED|%s|%s" % (path, name)
+                reason = run.excepted(key)
+                run.ob("R-ORDERED", "%s: %s on an ordered message list" % (path, name), bool(reason),
+                       "%s.%s(..) can reorder or drop elements of a group/value list: %s" % (show(n["recv"])[:40], name, show(n)[:100]), site(body, n), key=key)
+            else:
+                run.ob("R-ORDERED", "%s: %s keeps order" % (path, name), True)
+    run.floor("R-ORDERED", n_sites, 6, "method calls on group / value lists")
+
+
 def check(run, views, tier):
     run.explanation = (
         "R-CONTAINER / R-ORDERED-CONTAINERS: path-wise extraction of add / groups_of / IppAttributeGroup::new / the value "
@@ -160,29 +186,7 @@ def check(run, views, tier):
         if ga:
             gt = ga["variants"][0]["fields"][0]["ty"]
             run.ob("R-CONTAINER", "group list is a Vec", gt.startswith("std::vec::Vec<ipp::attribute::IppAttributeGroup"), gt, key="R-CONTAINER|groups-type")
-        # who-may-reorder
-        n_sites = 0
-        for path, body in F.hir.items():
-            if "::tests::" in path:
-                continue
-            for n in walk(body["body"]):
-                if n.get("k") != "mcall":
-                    continue
-                rty = (n["recv"].get("ty") or "").replace("&mut ", "").replace("&", "")
-                adj = n["recv"].get("adj") or []
-                tys = [rty] + [a["to"].replace("&mut ", "").replace("&", "") for a in adj]
-                if not any(t.startswith(ORDERED_TYPES) for t in tys):
-                    continue
-                n_sites += 1
-                name = n["name"]
-                if name in REORDER:
-                    key = "R-ORDERED|%s|%s" % (path, name)
-                    reason = run.excepted(key)
-                    run.ob("R-ORDERED", "%s: %s on an ordered message list" % (path, name), bool(reason),
-                           "%s.%s(..) can reorder or drop elements of a group/value list: %s" % (show(n["recv"])[:40], name, show(n)[:100]), site(body, n), key=key)
-                else:
-                    run.ob("R-ORDERED", "%s: %s keeps order" % (path, name), True)
-        run.floor("R-ORDERED", n_sites, 6, "method calls on group / value lists")
+        check_ordered(run, F)
         # ---- the value iterator ------------------------------------------------------------
         ib = F.body(INTO_ITER)
         if ib is None:
